@@ -20,7 +20,16 @@ tuples ({"$t": [...]}) as an ASGI server produces them (headers, query_string,
 raw_path, client, server); the model gets them under that encoding and, like the
 code, looks at none of it: families request_shape:* vary method, headers, path,
 query string, root_path, scheme, http_version, client against refusing / allowing /
-raising engines and raising builders.  A case may also be a stacked deployment: "outer" lists further
+raising engines and raising builders.  A case may carry a history: "init" holds
+the values of the public attributes (mode / builder / add_headers / guard) the
+instance was CONSTRUCTED with and "how" the current ones were assigned since (plain
+assignment on the instance, or a subclass __init__ after super().__init__());
+"warmup": 1 serves one unjudged request before the reassignment.  The request is
+judged — directly and against the model — with the CURRENT values, i.e. as a fresh
+instance built with them would serve it.  Scripted / engine decisions carry
+Decision.challenge and Decision.obligations (every documented challenge value); the
+middleware does not read them and the model's decision does not have them: the
+complete message list (status, full header list, body) is compared.  A case may also be a stacked deployment: "outer" lists further
 instances of the middleware wrapped around the case's own one, outermost first, each
 sharing the guard object ("same") or with its own ("own": scripted stub, or a real
 Guard over "gspec").  Every instance that is entered is one call of the model: its
@@ -155,7 +164,8 @@ def _mk_decision(d, missing):
         ns = types.SimpleNamespace(**{k: v for k, v in d.items() if k not in missing})
         return ns
     return Decision(allowed=d["allowed"], effect=d["effect"], reason=d["reason"], rule_id=d["rule_id"],
-                    policy_id=d["policy_id"])
+                    policy_id=d["policy_id"], challenge=d.get("challenge"),
+                    obligations=json.loads(json.dumps(d.get("obligations") or [])))
 
 
 _GUARDS: dict = {}
@@ -207,7 +217,8 @@ def _request_objects(req):
 
 def _dec_fields(d):
     return {"allowed": d.allowed, "effect": d.effect, "reason": d.reason,
-            "rule_id": getattr(d, "rule_id", None), "policy_id": getattr(d, "policy_id", None)}
+            "rule_id": getattr(d, "rule_id", None), "policy_id": getattr(d, "policy_id", None),
+            "challenge": getattr(d, "challenge", None)}
 
 
 def _is_ph(v) -> bool:
@@ -257,9 +268,10 @@ def layer_specs(case):
     for l in case.get("outer") or []:
         out.append({"mode": l["mode"], "add_headers": l["add_headers"], "builder": l["builder"],
                     "guard": l.get("guard", "own"), "eval": l.get("eval"), "gspec": l.get("gspec"),
-                    "request": l.get("request"), "expect_allowed": l.get("expect_allowed")})
+                    "request": l.get("request"), "expect_allowed": l.get("expect_allowed"), "init": l.get("init")})
     out.append({"mode": case["mode"], "add_headers": case["add_headers"], "builder": case["builder"],
                 "guard": "primary", "eval": case.get("eval"), "gspec": case.get("guard"), "request": None,
+                "init": case.get("init"),
                 "expect_allowed": (case.get("guard") or {}).get("expect_allowed")})
     return out
 
@@ -416,9 +428,13 @@ async def run_impl(case):
             run.objnum(o)
         return run.named_objs[name]
 
-    scope = {}
-    for k, v in case["scope"].items():
-        scope[k] = named(v[OBJ]) if _is_ph(v) else _to_py(v)
+    def make_scope():
+        sc = {}
+        for k, v in case["scope"].items():
+            sc[k] = named(v[OBJ]) if _is_ph(v) else _to_py(v)
+        return sc
+
+    scope = make_scope()
 
     def mk_hook(g):
         def hook(kind, val):
@@ -504,11 +520,70 @@ async def run_impl(case):
             await enter(i + 1, sc, rv, sd)
         return shim
 
+    def mk_stale_builder(L):
+        def stale_build_env(sc):           # the builder the instance was constructed with, replaced since
+            L.events.append(["build_by_replaced_builder"])
+            return tuple(getattr(L, "items", None) or [_Obj(j) for j in range(4)])
+        return stale_build_env
+
+    pending = []
     for i in range(n - 1, -1, -1):
         L = run.layers[i]
         sp = L.spec
-        L.mw = RbacxMiddleware(app if i == n - 1 else mk_shim(i), guard=L.guard, mode=sp["mode"],
-                               build_env=mk_builder(L), add_headers=sp["add_headers"])
+        app_i = app if i == n - 1 else mk_shim(i)
+        cur = {"guard": L.guard, "mode": sp["mode"], "build_env": mk_builder(L), "add_headers": sp["add_headers"]}
+        init = sp.get("init")
+        if not init:
+            L.mw = RbacxMiddleware(app_i, **cur)
+            continue
+        # a history: constructed with other values, its public attributes reassigned before the request
+        first = dict(cur)
+        if "mode" in init:
+            first["mode"] = init["mode"]
+        if "add_headers" in init:
+            first["add_headers"] = init["add_headers"]
+        if "builder" in init:
+            first["build_env"] = None if init["builder"] is None else mk_stale_builder(L)
+        if init.get("guard") == "other":
+            if L.gspec:
+                og = _real_guard(L.gspec, 50 + i)
+                og._verif_hook = mk_hook(og)
+                real_guards.append(og)
+            else:
+                og = StubGuard(run, {"k": "raise", "exc": "RuntimeError"})
+            run.objnum(og)
+            first["guard"] = og
+        if init.get("how") == "subclass":
+            def mk_sub(first, cur):
+                class Reconfigured(RbacxMiddleware):
+                    def __init__(self, app_):
+                        super().__init__(app_, **first)
+                        self.guard = cur["guard"]
+                        self.mode = cur["mode"]
+                        self.build_env = cur["build_env"]
+                        self.add_headers = cur["add_headers"]
+                return Reconfigured
+            L.mw = mk_sub(first, cur)(app_i)
+        else:
+            L.mw = RbacxMiddleware(app_i, **first)
+            pending.append((L, {k: cur[k] for k in ("guard", "mode", "build_env", "add_headers")
+                                if k == "build_env" and "builder" in init or k == "guard" and init.get("guard") == "other"
+                                or k in init}))
+    if case.get("warmup"):               # a request served before the attributes are reassigned; not judged
+        try:
+            await enter(0, make_scope(), receive, send)
+        except BaseException:  # noqa: BLE001
+            pass
+    for L, attrs in pending:
+        for k, v in attrs.items():
+            setattr(L.mw, k, v)
+    if case.get("warmup"):
+        for L in run.layers:
+            L.events, L.recorded, L.extra = [], [], {}
+            L.entered, L.entry, L.app_snap, L.scope_after, L.end = False, None, None, None, None
+        run.msgs = []
+        nsend[0] = 0
+        final_apps[0] = 0
     try:
         await enter(0, scope, receive, send)
     except BaseException:  # noqa: BLE001
@@ -963,6 +1038,11 @@ def _rand_eval(rng):
                                                  "CancelledError", "VerifBaseExc", "TypeError"])}
     ev = {"k": "ret", "d": _dec(rng.choice(ALLOWED_POOL), rng.choice(["permit", "deny", "Permit", "", None, 1]),
                                 _hostile_field(rng), _hostile_field(rng), _hostile_field(rng))}
+    if rng.random() < 0.4:
+        ev["d"]["challenge"] = rng.choice(CHALLENGES)
+    if rng.random() < 0.1:
+        ev["d"]["obligations"] = [{"type": rng.choice(["http_challenge", "require_mfa", "x"]),
+                                   "attrs": {"scheme": rng.choice(["Basic", "Bearer", "Digest", "x"])}}]
     if rng.random() < 0.08:
         ev["missing"] = rng.choice([["rule_id"], ["policy_id"], ["rule_id", "policy_id"]])
     return ev
@@ -1004,6 +1084,15 @@ def gen_hostile(chk, n):
         ae = rng.choice(["KeyError", "RuntimeError", "VerifBaseExc"]) if rng.random() < 0.1 else None
         case = {"fam": "hostile", "mode": rng.choice(MODE_POOL), "add_headers": rng.random() < 0.6, "scope": sc,
                 "builder": rng.choice(BUILDER_POOL), "eval": ev, "send_fail": sf, "app_exc": ae}
+        if rng.random() < 0.12:                       # the instance was constructed differently and reconfigured since
+            init = {"how": rng.choice(["setattr", "subclass"])}
+            for k, pool in (("mode", ["inject", "enforce", "off", None]), ("builder", [None, RET4]),
+                            ("add_headers", [False, True]), ("guard", ["other", "same"])):
+                if rng.random() < 0.5:
+                    init[k] = rng.choice(pool)
+            case["init"] = init
+            case["warmup"] = rng.choice([0, 0, 1])
+            case["fam"] = "hostile:history"
         if rng.random() < 0.15:                       # the instance sits behind one or two other instances
             outer = []
             for _k in range(rng.choice([1, 1, 1, 2])):
@@ -1264,6 +1353,116 @@ def _rand_http_scope(rng, H):
     return http_scope(m, hs, path=p, query=q, as_lists=rng.random() < 0.3, **over)
 
 
+# ---- histories: constructed, reconfigured through the public attributes, then the request
+def gen_histories(chk):
+    """[construct(mode, builder, add_headers, guard); reassign the public attributes — by plain assignment on the
+    instance or in a subclass __init__ after super().__init__() —; (optionally a request before the reassignment);
+    request]: the request must be served as by a fresh instance with the CURRENT attribute values (the case's own
+    mode / builder / add_headers / guard; "init" holds the values at construction).  Complete product (stub guard)."""
+    inits = [{"mode": m, "builder": b, "add_headers": ah, "guard": g}
+             for m, b, ah, g in itertools.product(("enforce", "inject"), (None, RET4), (False, True), ("same", "other"))]
+    for init, how, warm, mode, b, ah, ev in itertools.product(
+            inits, ("setattr", "subclass"), (0, 1), ("enforce", "inject"), (RET4, None, B_RAISE), (False, True),
+            (EV_ALLOW, EV_DENY, EV_RAISE)):
+        yield {"fam": "history", "mode": mode, "add_headers": ah, "scope": _scope("http"), "builder": b, "eval": ev,
+               "send_fail": None, "app_exc": None, "init": dict(init, how=how), "warmup": warm}
+    # one attribute at a time, other scope types, a reconfigured instance inside / outside a stack
+    for init, t, ev in itertools.product(
+            ({"mode": "inject"}, {"mode": "enforce"}, {"builder": None}, {"builder": RET4}, {"add_headers": False},
+             {"add_headers": True}, {"guard": "other"}, {"mode": "off", "builder": None}),
+            ("http", "websocket"), (EV_ALLOW, EV_DENY, EV_RAISE)):
+        for mode, b in (("enforce", RET4), ("inject", RET4), ("enforce", None), ("enforce", B_RAISE)):
+            yield {"fam": "history", "mode": mode, "add_headers": True, "scope": _scope(t), "builder": b, "eval": ev,
+                   "send_fail": None, "app_exc": None, "init": dict(init, how="setattr"), "warmup": 0}
+    for oinit, iinit, ev in itertools.product(
+            (None, {"mode": "enforce", "builder": RET4, "how": "setattr"}, {"mode": "inject", "how": "subclass"}),
+            (None, {"mode": "inject", "builder": None, "how": "setattr"}, {"mode": "enforce", "builder": RET4, "how": "subclass"}),
+            (EV_ALLOW, EV_DENY)):
+        for omode, imode in itertools.product(("inject", "enforce"), repeat=2):
+            o = {"mode": omode, "add_headers": False, "builder": RET4, "guard": "own", "eval": EV_ALLOW}
+            if oinit:
+                o["init"] = oinit
+            c = {"fam": "history:stacked", "mode": imode, "add_headers": True, "scope": _scope("http"), "builder": RET4,
+                 "eval": ev, "send_fail": None, "app_exc": None, "outer": [o]}
+            if iinit:
+                c["init"] = iinit
+            yield c
+
+
+def gen_guard_histories(chk):
+    """the same over the real Guard: inject / builder-less at construction, enforcing at the request, and back."""
+    P = guard_policies()
+    for (pname, (pol, exp)), rname, (init, mode, b), how in itertools.product(
+            P.items(), REQUESTS,
+            (({"mode": "inject"}, "enforce", RET4), ({"builder": None}, "enforce", RET4),
+             ({"mode": "inject", "builder": None, "guard": "other"}, "enforce", RET4),
+             ({"mode": "enforce", "builder": RET4}, "inject", RET4), ({"builder": None}, "enforce", B_RAISE)),
+            ("setattr", "subclass")):
+        yield {"fam": "guard_history:" + pname, "mode": mode, "add_headers": True, "scope": _scope("http"), "builder": b,
+               "guard": {"policy": pol, "request": REQUESTS[rname], "expect_allowed": exp[rname]},
+               "eval": None, "send_fail": None, "app_exc": None, "init": dict(init, how=how), "warmup": 0}
+
+
+# ---- Decision.challenge / Decision.obligations (not read by the middleware, not in the model's decision)
+CHALLENGES = [None, "mfa", "step_up", "consent", "tos", "captcha", "reauth", "age_verification", "http_basic", "http_bearer",
+              "http_digest", "http_auth", "Basic", "Bearer realm=\"x\"", "HTTP_BASIC", "custom:otp", "", "negotiate", 1,
+              True, ["http_basic"]]
+
+
+def gen_challenges(chk):
+    """stub decisions over every documented challenge value (and custom / ill-typed ones) x allowed x add_headers x
+    reason x obligations attached; complete product."""
+    obls = [None, [{"type": "http_challenge", "attrs": {"scheme": "Basic"}}], [{"type": "require_mfa"}]]
+    for ch, al, ah, (re, ru, po), ob in itertools.product(
+            CHALLENGES, (False, True), (False, True),
+            (("obligation_failed", "r1", None), ("obligation_failed", "r1", "p1"), (None, None, None)), obls):
+        d = _dec(al, "permit" if al else "deny", re, ru, po)
+        d["challenge"] = ch
+        if ob is not None:
+            d["obligations"] = ob
+        yield {"fam": "challenge", "mode": "enforce", "add_headers": ah, "scope": _scope("http"), "builder": RET4,
+               "eval": {"k": "ret", "d": d}, "send_fail": None, "app_exc": None}
+
+
+def obligation_policies():
+    """name -> (obligation list of the permitting rule, allowed for an empty context)."""
+    O = {"require_mfa": ([{"type": "require_mfa"}], False),
+         "require_level": ([{"type": "require_level", "attrs": {"min": 2}}], False),
+         "require_consent": ([{"type": "require_consent"}], False),
+         "require_consent_key": ([{"type": "require_consent", "attrs": {"key": "marketing"}}], False),
+         "require_terms_accept": ([{"type": "require_terms_accept"}], False),
+         "require_captcha": ([{"type": "require_captcha"}], False),
+         "require_reauth": ([{"type": "require_reauth", "attrs": {"max_age": 300}}], False),
+         "require_age_verified": ([{"type": "require_age_verified"}], False),
+         "unknown_type": ([{"type": "log_access"}], True),
+         "on_deny_only": ([{"type": "http_challenge", "on": "deny", "attrs": {"scheme": "Basic"}}], True)}
+    for sch in ("Basic", "Bearer", "Digest", "basic", "BEARER", "Negotiate", "", None):
+        O["http_challenge_%s" % sch] = ([{"type": "http_challenge", "attrs": {} if sch is None else {"scheme": sch}}], False)
+    O["http_challenge_explicit_on_permit"] = ([{"type": "http_challenge", "on": "permit", "attrs": {"scheme": "Digest"}}], False)
+    O["mfa_then_http"] = ([{"type": "require_mfa"}, {"type": "http_challenge", "attrs": {"scheme": "Bearer"}}], False)
+    return O
+
+
+def gen_guard_challenges(chk):
+    """the real Guard over policies (and policy sets) whose permitting rule carries each documented obligation, unmet:
+    the engine's Decision has every documented challenge value; x add_headers x algorithm / set; complete product."""
+    for (oname, (obl, exp)), ah, shape in itertools.product(obligation_policies().items(), (False, True),
+                                                            ("rules", "set", "deny_rule_too")):
+        r = _rule("ob", "permit", obligations=obl)
+        if shape == "rules":
+            pol = {"algorithm": "permit-overrides", "rules": [r]}
+        elif shape == "set":
+            pol = {"algorithm": "permit-overrides", "policies": [{"id": "pol-ob", "algorithm": "first-applicable",
+                                                                   "rules": [r]}]}
+        else:
+            pol = {"algorithm": "permit-overrides",
+                   "rules": [_rule("d", "deny", obligations=[{"type": "http_challenge", "on": "deny",
+                                                              "attrs": {"scheme": "Basic"}}]), r]}
+        yield {"fam": "guard_challenge:" + oname, "mode": "enforce", "add_headers": ah, "scope": _scope("http"),
+               "builder": RET4, "guard": {"policy": pol, "request": REQUESTS["read"], "expect_allowed": exp},
+               "eval": None, "send_fail": None, "app_exc": None}
+
+
 # ---- the real Guard over a family of small policies
 def _rule(rid, effect, action="read", **kw):
     r = {"id": rid, "effect": effect, "actions": [action], "resource": {"type": "doc"}}
@@ -1477,7 +1676,14 @@ def run(chk):
                 "static, well-known, docs, '..', encoded, '*', empty, very long) and 10 query strings x 3 request shapes "
                 "x outcomes (quick: one at a time + full product for the preflight-shaped request; thorough: full "
                 "product); root_path x scheme x http_version x client/server x outcomes; extension keys; 5 policies x 3 "
-                "requests x 4 methods x 5 header lists x builder over the real Guard; then seeded random hostile decisions (non-ASCII, "
+                "requests x 4 methods x 5 header lists x builder over the real Guard; histories [construct with mode x builder x add_headers x guard (16); "
+                "reassign by plain assignment / in a subclass __init__; optional request in between; request under mode x "
+                "builder x add_headers x {allow, deny, raise}] (2304), single-attribute reassignments x scope type, "
+                "reconfigured instances inside / outside a stack, and 14 policies x 3 requests x 5 histories x 2 ways over "
+                "the real Guard; 21 Decision.challenge values (every documented one, custom, ill-typed) x allowed x "
+                "add_headers x ids x obligations attached, and the real Guard over 20 obligation policies (every "
+                "documented obligation type unmet; http_challenge with 8 schemes) x add_headers x 3 policy shapes; "
+                "then seeded random hostile decisions (non-ASCII, "
                 "quotes, CR/LF, 5000 chars, the word "
                 "Forbidden, None, non-strings, truthy/falsy non-bool `allowed`), hostile modes/scope types, stale or "
                 "object-valued 'rbacx_guard' keys, random request shapes (method, shuffled header lists with extra CORS / auth "
@@ -1497,6 +1703,11 @@ def run(chk):
         "passes through unchanged, and no theorem of props/C20.v has a hypothesis about them — any dependence of the "
         "implementation's enforcement decision on the request's shape is therefore a deviation (families "
         "request_shape:*, random shapes in hostile); the model did not need to change for these families",
+        "Decision.challenge and Decision.obligations are not fields of the model's decision (asgi.py reads allowed, "
+        "reason, rule_id, policy_id only): a denial is the same 403 whatever they hold (families challenge, "
+        "guard_challenge:*); an instance is its four public attributes guard / mode / build_env / add_headers at the "
+        "time of the call — the model has no other instance state, so a request after reassigning them is judged "
+        "with the current values (families history, guard_history:*)",
         "bytes objects and tuples in the scope (headers, query_string, raw_path, client, server) are given to the model "
         "under an injective JSON encoding ({\"$b\": latin-1 text}, {\"$t\": [...]}), so an in-place change of them is "
         "still seen as a changed scope",
@@ -1514,7 +1725,8 @@ def run(chk):
     quick = chk.tier == "quick"
     cases = (list(gen_enum_a(chk)) + list(gen_enum_b(chk)) + list(gen_enum_c(chk)) + list(gen_guard_enum(chk))
              + list(gen_incoming_scope(chk)) + list(gen_stacks(chk)) + list(gen_guard_stacks(chk))
-             + list(gen_request_shapes(chk))
+             + list(gen_request_shapes(chk)) + list(gen_histories(chk)) + list(gen_guard_histories(chk))
+             + list(gen_challenges(chk)) + list(gen_guard_challenges(chk))
              + list(gen_ood_surrogate(chk)))
     chk.exhaustive = True
     cases += list(gen_hostile(chk, 8000 if quick else 150000))
